@@ -58,12 +58,39 @@ theorem normalize_length_le (l : List UInt8) : (normalize l).length ≤ l.length
   | case4 b rest h1 h2 ih => simp only [List.length_cons]; omega
 
 /-- file symlinks are ALWAYS followed (whatever the follow-directories switch says) and recorded
-    under the link's own path -/
+    under the link's own path with the prefix stripped, carrying the digests of the target's bytes;
+    a name that is already taken is an error — exactly as for a regular file -/
 theorem symFile_always_recorded (cfg : Cfg) (fuel : Nat) (path : Str) (d : List (Str × Str)) (acc : ArtMap)
     (h : List (Str × Str)) (hi : cfg.ignored path = false) (hh : hashObj d cfg.algs = some h) :
     visit cfg (fuel + 1) path (.symFile d) acc =
-      .ok (amSet acc (if cfg.noStripSymlink then path else stripPath cfg.lstrip path) h) := by
+      if (lookup (stripPath cfg.lstrip path) acc).isSome then .err "not-unique"
+      else .ok (acc ++ [(stripPath cfg.lstrip path, h)]) := by
   simp [visit, hi, hh]
+
+/-- a file symlink whose stripped name is already taken is the uniqueness error -/
+theorem symFile_collision_is_error (cfg : Cfg) (fuel : Nat) (path : Str) (d : List (Str × Str)) (acc : ArtMap)
+    (h : List (Str × Str)) (hi : cfg.ignored path = false) (hh : hashObj d cfg.algs = some h)
+    (hc : (lookup (stripPath cfg.lstrip path) acc).isSome = true) :
+    visit cfg (fuel + 1) path (.symFile d) acc = .err "not-unique" := by
+  simp [visit, hi, hh, hc]
+
+/-- a file symlink whose stripped name is free is appended under that name -/
+theorem symFile_fresh_is_recorded (cfg : Cfg) (fuel : Nat) (path : Str) (d : List (Str × Str)) (acc : ArtMap)
+    (h : List (Str × Str)) (hi : cfg.ignored path = false) (hh : hashObj d cfg.algs = some h)
+    (hc : lookup (stripPath cfg.lstrip path) acc = none) :
+    visit cfg (fuel + 1) path (.symFile d) acc = .ok (acc ++ [(stripPath cfg.lstrip path, h)]) := by
+  simp [visit, hi, hh, hc]
+
+/-- merging never panics -/
+theorem mergeUnique_no_panic (sub acc : ArtMap) : (mergeUnique acc sub).isPanic = false := by
+  induction sub generalizing acc with
+  | nil => rfl
+  | cons x xs ih =>
+    obtain ⟨k, v⟩ := x
+    simp only [mergeUnique]
+    split
+    · rfl
+    · exact ih _
 
 /-- directory symlinks are followed only on request -/
 theorem symDir_not_followed (cfg : Cfg) (fuel : Nat) (path : Str) (ch : List (Str × Node)) (acc : ArtMap)
@@ -120,12 +147,14 @@ theorem visit_visitChildren_no_panic (cfg : Cfg) (fuel : Nat) :
       · split
         · exact ihc _ _ _
         · rfl
-        · split <;> rfl
+        · split
+          · rfl
+          · split <;> rfl
         · split
           · rfl
           · have := ihc path (sortChildren ‹_›) []
             split
-            · rfl
+            · exact mergeUnique_no_panic _ _
             · exact this
         · split
           · rfl
